@@ -162,11 +162,6 @@ fn check(c: &Case, st: &mut Stats) -> Result<(), String> {
     };
     let mut dt = SourceBlockDecoder::new(0, &cfg, len as u64);
     let rt = dt.decode(chosen.iter().map(|&i| pa[i].clone()));
-    if let Some(ref out) = rt {
-        if out != &a {
-            return Err(format!("decoding at T={t} returned wrong bytes"));
-        }
-    }
     for (j, p1) in col_packets.iter().take(2) {
         let mut d1 = SourceBlockDecoder::new(0, &cfg1, k as u64);
         let r1 = d1.decode(chosen.iter().map(|&i| p1[i].clone()));
@@ -204,7 +199,7 @@ fn signature(_: &Case, msg: &str) -> String {
 pub fn run(ctx: &Ctx, rep: &mut Report) {
     rep.rule = "generated (K in 1..=40 weighted, up to 2000 / around the dense-sparse switch 245..260; T over 1..=136, 191..193, 255..257, 1280 so that every residue modulo 8/16/32/64 occurs; data pairs A,B from {random, zero, 0xFF, one-hot, position-coded}; scalar c over all 256 weighted to 0,1,2,0x1D,0x80,0xFF; construction in {new, with_encoding_plan, unplanned dense/sparse, plan from dense/sparse}); for every source packet and ~15 repair packets (near, uniform, far ESIs, 2^24-1): pkt(A^B) = pkt(A)^pkt(B), pkt(c*A) = c*pkt(A) with c* from the polynomial multiplier, byte j of pkt_T(A) = pkt_1(column j of A); decoding the same ESI set at T and at 1 gives the same Some/None and column-wise equal bytes. Non-trivial = T > 64 with T mod 64 != 0 (vector body and scalar tail both run) and c not in {0,1}; distinct by (K,T,construction).".into();
     let kmax = ctx.tier.pick(600u32, 2000);
-    let n = ctx.tier.pick(3_000u64, 100_000);
+    let n = ctx.tier.pick(20_000u64, 200_000);
     rep.absorb("linearity", run_sharded("C09", "linearity", ctx.seed, n, 32, move || strategy(kmax), check, to_json, signature));
 }
 
